@@ -761,6 +761,12 @@ def rule_M5(ctx, rid='M5'):
            % (unparse(lp.iter), nev) if ok else
            '`%s` does not enumerate exactly the earlier shells: for %d bounds it yields %s'
            % (unparse(lp.iter), cex[0], cex[2]))
+    brk = [b_ for b_ in ast.walk(lp) if isinstance(b_, ast.Break)]
+    ctx.ob(rid, 'Sampler.add_bound:visits-every-earlier-shell', not brk, f.where(lp),
+           'the split loop has no break: every earlier shell is tested against the new bound'
+           if not brk else
+           'the split loop can stop early: shells it never reaches keep points that lie inside '
+           'the new bound (a new bound need not be nested in the intermediate ones)')
     recv = st.value.func.value
     ra = root_attr(recv, f.self_name)
     okr = bool(ra) and ra[0] == 'bounds' and len(ra[1]) == 1 and const_value(ra[1][0][1]) == -1
